@@ -136,22 +136,27 @@ package profiledb
 //@             has(db.devices, id) == old(has(db.devices, id)) && db.devices[id] == old(db.devices[id])
 
 //@ pred validProfs(ps []*agd.Profile) = forall i int :: 0 <= i && i < len(ps) ==> ps[i] != nil
+//@ pred distinctProfs(ps []*agd.Profile) = forall i int, j int :: 0 <= i && i < j && j < len(ps) ==> ps[i].ID != ps[j].ID
 
 // A full synchronisation forgets every index before applying the response:
 // keys that no device of the response owns are not found afterwards.
 //@ func (*Default).setProfiles
 //@   property C14
-//@   requires DB(db) && validDevs(devices) && distinctDevs(devices) && validProfs(profiles)
+//@   requires DB(db) && validDevs(devices) && distinctDevs(devices) && validProfs(profiles) && distinctProfs(profiles)
 //@   modifies mapof(db.profiles), mapof(db.devices), mapof(db.dedicatedIPToDeviceID), mapof(db.deviceIDToProfileID), mapof(db.humanIDToDeviceID), mapof(db.linkedIPToDeviceID)
 //@   ensures latest-device-wins: forall i int :: 0 <= i && i < len(devices) ==> has(db.devices, devices[i].ID) && db.devices[devices[i].ID] == devices[i]
+//@   ensures every-profile-of-the-response-is-installed: forall i int :: 0 <= i && i < len(profiles) ==>
+//@             has(db.profiles, profiles[i].ID) && db.profiles[profiles[i].ID] == profiles[i]
 //@   ensures full-sync-forgets-the-rest: isFullSync ==> (forall id agd.DeviceID :: !devInResp(devices, len(devices), id) ==> !has(db.devices, id))
 //@   ensures partial-sync-keeps-the-rest: !isFullSync ==> (forall id agd.DeviceID :: !devInResp(devices, len(devices), id) ==>
 //@             has(db.devices, id) == locked(has(db.devices, id)) && db.devices[id] == locked(db.devices[id]))
 //@   loop 1 invariant -1 <= #i && #i < len(profiles)
 //@   loop 1 invariant forall id agd.ProfileID :: has(db.profiles, id) ==> db.profiles[id] != nil
+//@   loop 1 invariant forall j int :: 0 <= j && j <= #i ==> has(db.profiles, profiles[j].ID) && db.profiles[profiles[j].ID] == profiles[j]
 //@   loop 1 invariant forall id agd.DeviceID :: has(db.devices, id) == (isFullSync ? false : locked(has(db.devices, id))) && (!isFullSync ==> db.devices[id] == locked(db.devices[id]))
 //@   loop 2 invariant -1 <= #i && #i < len(p.DeviceIDs) && -1 <= #i1 && #i1 + 1 < len(profiles) && p == profiles[#i1 + 1] && p != nil
 //@   loop 2 invariant forall id agd.ProfileID :: has(db.profiles, id) ==> db.profiles[id] != nil
+//@   loop 2 invariant forall j int :: 0 <= j && j <= #i1 + 1 ==> has(db.profiles, profiles[j].ID) && db.profiles[profiles[j].ID] == profiles[j]
 //@   loop 2 invariant forall id agd.DeviceID :: has(db.devices, id) == (isFullSync ? false : locked(has(db.devices, id))) && (!isFullSync ==> db.devices[id] == locked(db.devices[id]))
 
 //@ interface Metrics method *
